@@ -6,7 +6,8 @@ import QbVerif.Driver.Util
 `cli I uid=U gid=G ids=res|eff rc=R auth=U2:G2:MODE|- fail=K:ENAME|- msgs=M` → the block the harness
 prints for that client (`fs CALL PATH [ARGS] -> RES | SNAP`, `accept`, `authset`, `connect`, `snap`,
 `msgs`, teardown calls, `late`, `residue`).  Argument `prerepair` selects the model of the tree before
-repair D27b (5cb555e: qb_ipcs_us_connect chowns the directory).  With `ids=eff` the child only changes its effective ids; the kernel then fills
+repair D27b (5cb555e: qb_ipcs_us_connect chowns the directory).  `--classify`: per client only
+`cli I classes: <names of the known-finding class predicates the input falls into | ->`.  With `ids=eff` the child only changes its effective ids; the kernel then fills
 SCM_CREDENTIALS with the REAL ids, which are the harness's own (root): ugp = 0:0. -/
 namespace QbVerif.Driver.Admission
 open QbVerif.Admission QbVerif.Driver
@@ -15,6 +16,7 @@ structure D where
   transport : Transport := .shm
   umask : Nat := 0o022
   dirfix : Bool := true
+  classify : Bool := false
 
 def octDigits (n : Nat) : String :=
   String.ofList ((Nat.toDigits 8 n))
@@ -117,6 +119,7 @@ def cliBlock (d : D) (ws : List String) : List String :=
   let (ku, kg) := if eff then (0, 0) else (uid, gid)
   let i : Input := { transport := d.transport, umask := d.umask, uid := ku, gid := kg, rc := rc,
                      auth := auth, failAt := fk, failErr := fe, usDirChown := d.dirfix }
+  if d.classify then [s!"cli {idx} classes: {if i.classes.isEmpty then "-" else " ".intercalate i.classes}"] else
   let s := run i
   let items := s.log.reverse
   let setup := items.takeWhile (fun x => !isTeardown x)
@@ -140,7 +143,7 @@ def step (d : D) (ws : List String) : D × List String :=
   | _ => (d, ["EINVAL"])
 
 def main (args : List String) : IO UInt32 := do
-  lineLoop ({ dirfix := !args.contains "prerepair" } : D) step
+  lineLoop ({ dirfix := !args.contains "prerepair", classify := args.contains "--classify" } : D) step
   return 0
 
 end QbVerif.Driver.Admission
